@@ -33,6 +33,63 @@ func installBytesAndRegexp(ev *eval.Evaluator, fileLines []string) {
 		}
 		return eval.Tuple{eval.K(0), eval.Nil{}}
 	}
+	bufOf := func(recv eval.Value) *bytesBufModel {
+		r := recv.(*eval.Ref)
+		m, ok := r.Get().(*bytesBufModel)
+		if !ok {
+			m = &bytesBufModel{}
+			r.Set(m)
+		}
+		return m
+	}
+	ev.Extern["(*bytes.Buffer).WriteString"] = func(ev *eval.Evaluator, pos token.Pos, recv eval.Value, args []eval.Value) eval.Value {
+		m := bufOf(recv)
+		s, ok := args[0].(eval.Str)
+		if !ok || !s.IsConst() {
+			ev.Failf(pos, "bytes.Buffer.WriteString of a symbolic string")
+		}
+		m.data = append(m.data, []byte(s.Const())...)
+		return eval.Tuple{eval.K(int64(len(s.Const()))), eval.Nil{}}
+	}
+	ev.Extern["(*bytes.Buffer).WriteByte"] = func(ev *eval.Evaluator, pos token.Pos, recv eval.Value, args []eval.Value) eval.Value {
+		m := bufOf(recv)
+		l, ok := args[0].(eval.Lin)
+		if !ok || !l.IsConst() {
+			ev.Failf(pos, "bytes.Buffer.WriteByte of a symbolic byte")
+		}
+		m.data = append(m.data, byte(l.C))
+		return eval.Nil{}
+	}
+	ev.Extern["(*bytes.Buffer).WriteRune"] = func(ev *eval.Evaluator, pos token.Pos, recv eval.Value, args []eval.Value) eval.Value {
+		m := bufOf(recv)
+		l, ok := args[0].(eval.Lin)
+		if !ok || !l.IsConst() {
+			ev.Failf(pos, "bytes.Buffer.WriteRune of a symbolic rune")
+		}
+		m.data = append(m.data, []byte(string(rune(l.C)))...)
+		return eval.Tuple{eval.K(int64(len(string(rune(l.C))))), eval.Nil{}}
+	}
+	ev.Extern["(*bytes.Buffer).Len"] = func(ev *eval.Evaluator, pos token.Pos, recv eval.Value, args []eval.Value) eval.Value {
+		if m, ok := unref(recv).(*bytesBufModel); ok {
+			return eval.K(int64(len(m.data)))
+		}
+		return eval.K(0)
+	}
+	ev.Extern["(*bytes.Buffer).String"] = func(ev *eval.Evaluator, pos token.Pos, recv eval.Value, args []eval.Value) eval.Value {
+		if m, ok := unref(recv).(*bytesBufModel); ok {
+			return eval.S(string(m.data))
+		}
+		return eval.S("")
+	}
+	ev.Extern["(*bytes.Buffer).Grow"] = func(ev *eval.Evaluator, pos token.Pos, recv eval.Value, args []eval.Value) eval.Value {
+		return nil
+	}
+	ev.Extern["bytes.NewBufferString"] = func(ev *eval.Evaluator, pos token.Pos, recv eval.Value, args []eval.Value) eval.Value {
+		s, _ := args[0].(eval.Str)
+		m := &bytesReaderModel{data: []byte(s.Const())}
+		return &eval.Ref{Get: func() eval.Value { return m }, Set: func(eval.Value) {}}
+	}
+	ev.Extern["strings.NewReader"] = ev.Extern["bytes.NewBufferString"]
 	ev.Extern["(*bytes.Buffer).Bytes"] = func(ev *eval.Evaluator, pos token.Pos, recv eval.Value, args []eval.Value) eval.Value {
 		if m, ok := unref(recv).(*bytesBufModel); ok {
 			return bytesVal(string(m.data))
